@@ -172,6 +172,10 @@ type conf struct {
 	// client only: the first connection ends in the middle of a packet (partial bytes, then close);
 	// the client reconnects with its next request and receives c.items on the second connection
 	reconnectAfterPartial int
+	// client only: the first connection delivers an illegal length; while the protocol callback is still
+	// busy with it the application closes the client and sends again (new connection), which then
+	// receives c.items: the error on the old connection closes that connection only
+	replaceDuringError bool
 }
 
 func scenario(c conf) *vm.Scenario {
@@ -226,10 +230,79 @@ func serverMain(c conf) {
 
 type cliProto struct{}
 
-func (cliProto) Recv(pkg []byte)                  { vm.Log("deliver 0 %x", pkg) }
-func (cliProto) ParsePackage(b []byte) (int, int) { return protocol.TarsRequest(b) }
+func (cliProto) Recv(pkg []byte) { vm.Log("deliver 0 %x", pkg) }
+func (cliProto) ParsePackage(b []byte) (int, int) {
+	n, st := protocol.TarsRequest(b)
+	if st == transport.PackageError && illegalSeen != nil {
+		// the protocol callback is user code and may take its time: here it takes until the scenario has
+		// replaced the client's connection (once)
+		ch := illegalSeen
+		illegalSeen = nil
+		vm.Send(ch, struct{}{})
+		vm.Recv(resumeOld)
+	}
+	return n, st
+}
+
+// hooks of the scenario "connection replaced while the old receive loop handles an illegal length"
+var illegalSeen, resumeOld chan struct{}
+
+func clientReplaceMain(c conf) {
+	ln, err := vnet.Listen("tcp", addr)
+	if err != nil {
+		panic(err)
+	}
+	seen := make(chan struct{}, 1)
+	illegalSeen, resumeOld = seen, make(chan struct{}, 1)
+	done := make(chan struct{}, 1)
+	goOn := make(chan struct{}, 1)
+	vm.GoNamed("peerA", func() {
+		cn, err := ln.Accept()
+		if err != nil {
+			panic(err)
+		}
+		old := cn.(*vnet.TCPConn)
+		buf := make([]byte, 64)
+		old.Read(buf)
+		old.Write([]byte{0, 0, 0, 3, 1, 2, 3}) // illegal length on the first connection, which stays open on this side
+		cn2, err := ln.Accept()
+		if err != nil {
+			panic(err)
+		}
+		tc := cn2.(*vnet.TCPConn)
+		vm.Log("A port=0")
+		tc.Read(buf)
+		vm.Recv(goOn) // the old receive loop has finished with its illegal length by now
+		stream, _ := build(c.items, 0x10)
+		writeChunks(tc, stream, c.ch(), "A")
+		probe(tc, 2*time.Second, "A")
+		tc.Close()
+		vm.Send(done, struct{}{})
+	})
+	cl := transport.NewTarsClient(addr, cliProto{}, &transport.TarsClientConf{Proto: "tcp", QueueLen: 8,
+		IdleTimeout: 600 * time.Second, DialTimeout: time.Second})
+	if err := cl.Send([]byte{0, 0, 0, 6, 9, 9}); err != nil {
+		panic(err)
+	}
+	vm.Recv(seen)
+	cl.Close() // the application replaces the connection ...
+	if err := cl.Send([]byte{0, 0, 0, 6, 8, 8}); err != nil {
+		panic(err)
+	}
+	vm.Sleep(int64(50 * time.Millisecond))
+	vm.Send(resumeOld, struct{}{}) // ... and only now the old loop acts on the illegal length
+	vm.Sleep(int64(100 * time.Millisecond))
+	vm.Send(goOn, struct{}{})
+	vm.Recv(done)
+	vm.Sleep(int64(2 * time.Second))
+}
 
 func clientMain(c conf) {
+	illegalSeen, resumeOld = nil, nil
+	if c.replaceDuringError {
+		clientReplaceMain(c)
+		return
+	}
 	ln, err := vnet.Listen("tcp", addr)
 	if err != nil {
 		panic(err)
@@ -472,6 +545,8 @@ func main() {
 		add(conf{name: fmt.Sprintf("client reconnect after %d bytes of a cut packet", cut), items: []item{V(5), V(6)}, maxLen: 64, ch: comp, client: true, reconnectAfterPartial: cut}, 0, true)
 	}
 	add(conf{name: "client reconnect after cut packet sched", items: []item{V(5), V(6)}, maxLen: 64, ch: fixed(11), client: true, reconnectAfterPartial: 7}, 1, true)
+	add(conf{name: "client connection replaced while the old one reports an illegal length", items: []item{V(5), V(6)}, maxLen: 64, ch: comp, client: true, replaceDuringError: true}, 0, true)
+	add(conf{name: "client connection replaced while the old one reports an illegal length sched", items: []item{V(5), V(6)}, maxLen: 64, ch: fixed(11), client: true, replaceDuringError: true}, 1, true)
 	// (5c) packets beyond 64 KiB followed by small ones in the same read
 	for _, client := range []bool{false, true} {
 		side := "server"
